@@ -48,7 +48,7 @@ Fixpoint consume_inside (fuel : nat) (wrapper : Z) (s : str) (buf : str) (n : Z)
       match s with
       | [] => None
       | c :: r =>
-          if c =? wrapper then Some (rev buf, r, n + utf8_len c)
+          if c =? wrapper then Some (rev_append buf [], r, n + utf8_len c)
           else if c =? 92 then
             match r with
             | c2 :: r2 => consume_inside f wrapper r2 (c2 :: c :: buf) (n + 1 + utf8_len c2)
@@ -78,7 +78,7 @@ Fixpoint lex_go (fuel : nat) (s : str) (pos : Z) (acc : list (Z * token)) : res 
   | O => OOF
   | S f =>
       match s with
-      | [] => Ok (rev ((pos, TEof) :: acc))
+      | [] => Ok (rev_append ((pos, TEof) :: acc) [])
       | c :: r =>
           let simple t := lex_go f r (pos + 1) ((pos, t) :: acc) in
           let alt expected t_match t_else :=
